@@ -260,9 +260,11 @@ func runCase(c copyx.Case) (res vt.Result, fail *vt.Fail) {
 }
 
 func TestMain(m *testing.M) {
+	vt.ReplayRepeat["twin"] = 50
 	vt.Main(m, "C01",
 		vt.NewLeg("main", 1500, 5000, 16, genCase, runCase),
 		vt.NewLeg("remote", 600, 2500, 8, genRemote, runCase),
+		vt.NewLeg("twin", 500, 2000, 4, genTwin, runTwin),
 	)
 }
 
